@@ -99,11 +99,14 @@ fn single_branch(st: &HState, idx: usize, after: &str, ctx: &mut Ctx) -> CaseRes
 pub fn run_case(h0: &History, ctx: &mut Ctx) -> CaseResult {
     let mut h = h0.clone();
     make_total(&mut h);
+
     h.ops.push(HOp::Eliminate);
     let mut st = init(&h)?;
+    st.total_operands_only = true;
     ctx.class_if(h.shift > 0, "data_far_from_origin");
     // unpruned twin: same operations without any pruning
     let mut twin = init(&h)?;
+    twin.total_operands_only = true;
     let mut twin_ok = true;
     let mut removed_any = false;
     let mut forwarded_any = false;
